@@ -46,6 +46,7 @@ PURE = {
     "std::array::as_slice": "as_slice",
     "std::slice::get": "slice_get",
     "std::slice::get_mut": "slice_get",
+    "std::slice::split_at": "slice_split_at",
     "std::slice::is_empty": "is_empty",
     "std::vec::Vec::is_empty": "is_empty",
     "std::ops::Range::is_empty": "range_is_empty",
@@ -766,6 +767,10 @@ class Evaluator:
             al = alts(args[0])
             if al is not None:
                 return mk_phi([args[1]] + [self.closure_ret(ctx, args[2], [v]) for v in al])
+        if model == "slice_split_at" and len(args) == 2:
+            # s.split_at(k) = (&s[..k], &s[k..])
+            return ("agg", "tuple", (("ref", ("call", "index", (args[0], ("agg", "std::ops::RangeTo::RangeTo", (args[1],))))),
+                                     ("ref", ("call", "index", (args[0], ("agg", "std::ops::RangeFrom::RangeFrom", (args[1],)))))))
         if model in ("is_empty", "len") and args:
             # the length of a sub-slice `s[b..e]` is e - b, of `s[..n]` it is n (the indexing panics otherwise)
             v = args[0]
